@@ -257,8 +257,8 @@ def run_job(prop, job, tier, verbose=False, loopless=False):
             res["loop_obligations"] += 1
         if st == "SUCCESS":
             res["discharged"] += 1
-            if len(samples) < 3 and re.search(r"postcondition|assertion|assigns", name) and not name.startswith("__CPROVER"):
-                samples.append("%s: %s" % (name, desc[:100]))
+            if len(samples) < 4 and not name.startswith("__CPROVER") and (re.search(r"postcondition|loop_invariant_step|\.assigns\.", name) or desc.startswith("VC_CHECK") or desc.startswith("C20 ") or desc.startswith("C06 ")):
+                samples.append("%s: %s" % (name, desc[:140]))
         else:
             loc = r.get("sourceLocation", {})
             if desc.startswith("C20 "):
@@ -670,6 +670,8 @@ def write_evidence(prop, tier, mod, jobs, results, violations, known_hits, undec
                trusted_base=meta.get("trusted_base", []) + COMMON_TRUSTED,
                explanation=expl, exhaustive=False, samples=samples or [dict(note="no sample")],
                functions_under_contract=sorted(f for f in functions if f),
+               assumed_contracts_and_stubs=sorted(set(sum([["contract replaces call: " + x for x in j.replace] + ["body removed, stub linked: " + x for x in j.remove_bodies] +
+                                                            ["stub file: " + x for x in j.stubs] for j in jobs], []))),
                proof_obligation_groups=[j.name for j in proof_jobs], bounded_obligation_groups=[dict(job=j.name, bound=j.bound) for j in bounded_jobs],
                solver_seconds_total=round(sum(r["solver_s"] for r in results.values()), 1),
                per_job=per_job,
